@@ -160,7 +160,8 @@ def handler(case):
     grab.msgs = []
     opts = dict(case["options"])
     try:
-        model.simplify(opts)
+        for _ in range(int(case.get("repeat", 1))):
+            model.simplify(dict(opts))
     except Exception as e:  # noqa
         res["simplify_exc"] = {"exc": type(e).__name__, "msg": str(e)[:300]}
         res["warnings"] = list(grab.msgs)
